@@ -181,11 +181,13 @@ Lemma proc_open_fail_repaired_v2 :
 Proof. vm_compute. reflexivity. Qed.
 
 (* both engines: Start is admitted while the status is Recovering. When the retries are exhausted
-   (or the nested Start fails) the old cleanup writes Degraded over the run the user just started *)
+   (or the nested Start fails) the old cleanup wrote Degraded over the run the user just started.
+   Repaired (degradeIfCurrent, [f_own_close]): the closing write of a failed recovery is skipped once another run
+   has been published; the same schedules end Running with the user's run live *)
 Definition w_start_in_backoff_v1 : list act :=
   start_v1 0 ++ [AOpenFail 0; AKill 0 CaTransient; AEnd 0] ++ clean 0 1 ++ start_v1 1 ++ [AClean 0 1] ++ clean 0 3 ++ [AOpen 1].
 Lemma start_in_backoff_degrades_live_run_v1 :
-  match final (cfg_v1 true) w_start_in_backoff_v1 with
+  match final (cfg_v1_before_own_close true) w_start_in_backoff_v1 with
   | Some s => quiescent s && status_eqb (s_status s) Degraded && is_live (s_runs s 1) && negb (agrees s)
   | None => false
   end = true.
@@ -194,11 +196,54 @@ Proof. vm_compute. reflexivity. Qed.
 Definition w_start_in_backoff_v2 : list act :=
   start_v2 0 ++ fail_v1 0 CaTransient ++ clean 0 1 ++ start_v2 1 ++ [AClean 0 1] ++ clean 0 3.
 Lemma start_in_backoff_degrades_live_run_v2 :
-  match final (cfg_v2 true) w_start_in_backoff_v2 with
+  match final (cfg_v2_before_own_close true) w_start_in_backoff_v2 with
   | Some s => quiescent s && status_eqb (s_status s) Degraded && is_live (s_runs s 1) && negb (agrees s)
   | None => false
   end = true.
 Proof. vm_compute. reflexivity. Qed.
+
+Lemma start_in_backoff_repaired :
+  (match final (cfg_v1 true) w_start_in_backoff_v1 with
+   | Some s => quiescent s && status_eqb (s_status s) Running && is_live (s_runs s 1) && agrees s && running_map_ok s
+   | None => false
+   end = true)
+  /\ (match final (cfg_v2 true) w_start_in_backoff_v2 with
+      | Some s => quiescent s && status_eqb (s_status s) Running && is_live (s_runs s 1) && agrees s && running_map_ok s
+      | None => false
+      end = true).
+Proof. vm_compute. split; reflexivity. Qed.
+
+(* both engines, a POLITE history (no Start admitted while Recovering): the Running write of the recovery restart
+   fails. The restarted run (1) is Killed and finalized as Degraded by its own cleanup goroutine (742a56e / eff71a0);
+   Degraded admits a new Start; the user starts run 2; THEN the recovering run's cleanup (0), whose nested Start has
+   returned the error, wrote Degraded a second time - over run 2. Repaired (degradeIfCurrent): the map entry is no
+   longer run 0, the second write is skipped. *)
+Definition w_stfail_restart_then_start_v1 : list act :=
+  start_v1 0 ++ [AOpen 0] ++ fail_v1 0 CaTransient ++ clean 0 8 ++ [AClean 0 1; AOpen 1; ATd 1; AEnd 1] ++ clean 1 4
+  ++ clean 0 1 ++ start_v1 1 ++ [AOpen 2] ++ clean 0 4.
+Definition w_stfail_restart_then_start_v2 : list act :=
+  start_v2 0 ++ fail_v1 0 CaTransient ++ clean 0 11 ++ [AClean 0 1; ATd 1; AEnd 1] ++ clean 1 4
+  ++ clean 0 1 ++ start_v2 1 ++ clean 0 4.
+Lemma second_degraded_write_over_new_run :
+  (match final (cfg_v1_io_before_own_close true) w_stfail_restart_then_start_v1 with
+   | Some s => quiescent s && status_eqb (s_status s) Degraded && is_live (s_runs s 2) && negb (agrees s)
+   | None => false
+   end = true)
+  /\ (match final (cfg_v2_io_before_own_close true) w_stfail_restart_then_start_v2 with
+      | Some s => quiescent s && status_eqb (s_status s) Degraded && is_live (s_runs s 2) && negb (agrees s)
+      | None => false
+      end = true).
+Proof. vm_compute. split; reflexivity. Qed.
+Lemma second_degraded_write_skipped_repaired :
+  (match final (cfg_v1_io true) w_stfail_restart_then_start_v1 with
+   | Some s => quiescent s && status_eqb (s_status s) Running && is_live (s_runs s 2) && agrees s && running_map_ok s
+   | None => false
+   end = true)
+  /\ (match final (cfg_v2_io true) w_stfail_restart_then_start_v2 with
+      | Some s => quiescent s && status_eqb (s_status s) Running && is_live (s_runs s 2) && agrees s && running_map_ok s
+      | None => false
+      end = true).
+Proof. vm_compute. split; reflexivity. Qed.
 
 (* v1: the user's Start and the recovery's nested Start both pass the status check: two runs are
    published, the map ends up pointing at the other one *)
@@ -354,6 +399,21 @@ Lemma stfail_start_repaired_v2 :
                     && onat_eqb (s_map s) None && closing_before_ret ls
                     && has_label (fun l => match l with LRet 0 RetErr => true | _ => false end) ls
                     && has_label (fun l => match l with LNotify (ResCause CaFatal) => true | _ => false end) ls
+  | None => false
+  end = true.
+Proof. vm_compute. reflexivity. Qed.
+
+(* v1 as it stands: the failing Running write rolls the publication back at once, while the Killed run is still
+   winding down and its Start has not returned. A WaitPipeline issued in that window finds no entry and no terminal
+   error and answers nil although the status says Running and the run is live (arch-v2 keeps the run published and
+   the wait joins it). Open finding v1/failed-running-write/at-start/wait-answered-during-wind-down. *)
+Definition w_wait_during_failed_start_v1 : list act :=
+  [ACall KStart 0] ++ user 5 ++ [AUser 1; AOpen 0; ACall KWait 1; AWaiter 1; AWaiter 1; AWaiter 1].
+Lemma wait_during_failed_start_returns_nil_v1 :
+  match trace (cfg_v1_io true) init w_wait_during_failed_start_v1 with
+  | Some (ls, s) => status_eqb (s_status s) Running && onat_eqb (s_map s) None && is_live (s_runs s 0)
+                    && has_label (fun l => match l with LRet 1 RetNil => true | _ => false end) ls
+                    && negb (has_label (fun l => match l with LRet 0 _ => true | _ => false end) ls)
   | None => false
   end = true.
 Proof. vm_compute. reflexivity. Qed.
